@@ -136,6 +136,10 @@ type Checks struct {
 	Resolve   bool // C02
 	Referrers bool // C03
 	Hooks     bool // C16
+	// GetFold (C07, history tier): the real GetRIB is run after EVERY step (also while replaying a prefix, so
+	// that anything a Get leaves behind in the implementation is part of the history) and, on the checked step,
+	// its stream must equal the fold of acknowledged operations.
+	GetFold bool
 }
 
 // HookConfig selects how the change hook is attached (C16).
@@ -219,6 +223,66 @@ func (in *inst) Apply(li int, check bool) []mc.Fail {
 }
 
 func (in *inst) apply(l Letter, check bool) []mc.Fail {
+	out := in.apply1(l, check)
+	if in.o.Checks.GetFold {
+		got, err := in.getAll()
+		if check {
+			switch {
+			case err != nil:
+				out = append(out, mc.Fail{Sig: "C07/get-error", What: err.Error()})
+			default:
+				if d := ribx.Diff(in.fold, got); d != "" {
+					out = append(out, mc.Fail{Sig: "C07/get-stream-differs-from-acknowledged-state/" + ribx.DiffKinds(in.fold, got), What: fmt.Sprintf("after %s: the Get stream differs from the fold of acknowledged operations: %s", l.Name, d)})
+				}
+			}
+		}
+	}
+	return out
+}
+
+// getAll runs the real RIBHolder.GetRIB(ALL) of every network instance and returns the stream in model form.
+func (in *inst) getAll() (*ribx.Model, error) {
+	m := ribx.NewModel(D, V)
+	for _, ni := range in.r.KnownNetworkInstances() {
+		h, _ := in.r.NetworkInstanceRIB(ni)
+		msgCh := make(chan *spb.GetResponse)
+		stopCh := make(chan struct{})
+		errCh := make(chan error, 1)
+		go func() {
+			errCh <- h.GetRIB(map[spb.AFTType]bool{spb.AFTType_ALL: true}, msgCh, stopCh)
+			close(msgCh)
+		}()
+		for r := range msgCh {
+			for _, e := range r.GetEntry() {
+				var k ribx.Kind
+				var key string
+				var p proto.Message
+				switch t := e.GetEntry().(type) {
+				case *spb.AFTEntry_Ipv4:
+					k, key, p = ribx.V4, t.Ipv4.GetPrefix(), t.Ipv4
+				case *spb.AFTEntry_Ipv6:
+					k, key, p = ribx.V6, t.Ipv6.GetPrefix(), t.Ipv6
+				case *spb.AFTEntry_Mpls:
+					k, key, p = ribx.MPLS, fmt.Sprint(t.Mpls.GetLabelUint64()), t.Mpls
+				case *spb.AFTEntry_NextHopGroup:
+					k, key, p = ribx.NHG, fmt.Sprint(t.NextHopGroup.GetId()), t.NextHopGroup
+				case *spb.AFTEntry_NextHop:
+					k, key, p = ribx.NH, fmt.Sprint(t.NextHop.GetIndex()), t.NextHop
+				}
+				if m.Has(e.GetNetworkInstance(), k, key) {
+					return nil, fmt.Errorf("Get streamed %s %s@%s twice", k, key, e.GetNetworkInstance())
+				}
+				m.Set(e.GetNetworkInstance(), k, key, p)
+			}
+		}
+		if err := <-errCh; err != nil {
+			return nil, err
+		}
+	}
+	return m, nil
+}
+
+func (in *inst) apply1(l Letter, check bool) []mc.Fail {
 	in.step++
 	if l.Entry == nil {
 		return in.flush(l, check)
